@@ -574,6 +574,30 @@ pub fn dirty_check(w: &World, phase: &str) -> Result<(), Violation> {
     Ok(())
 }
 
+/// C05: `stats()` against the table, right now. On multi-hundred-million-cluster volumes a recount (count unknown after
+/// a dirty mount) is legitimate but costs two device calls per cluster: the query is skipped there unless the count
+/// is maintained.
+fn stats_vs_table(w: &mut World, s: &mut Session) -> Result<(), Violation> {
+    if !(w.count_known || w.geo.n_clusters <= 2_000_000) {
+        return Ok(());
+    }
+    let saved_mode = w.disk.borrow().log_mode;
+    w.disk.borrow_mut().log_mode = if saved_mode == crate::disk::LogMode::Off { saved_mode } else { crate::disk::LogMode::Meta };
+    w.disk.borrow_mut().calls.clear();
+    let r = guarded(|| s.fs.stats());
+    w.disk.borrow_mut().calls.clear();
+    w.disk.borrow_mut().log_mode = saved_mode;
+    w.disk.borrow_mut().writes.clear();
+    match r {
+        Guarded::Done(Ok(st)) => check_stats(w, &st)?,
+        Guarded::Done(Err(e)) => return Err(viol("C05", "stats-failed", format!("{:?}", e), w.step_no)),
+        Guarded::Panic(m) => return Err(viol("C05", "panic", format!("stats(): {}", m), w.step_no)),
+        Guarded::Hang => return Err(viol("C05", "hang", "stats()".into(), w.step_no)),
+    }
+    w.count_known = true;
+    Ok(())
+}
+
 pub fn post_step(w: &mut World, s: &mut Session, ctx: &PostCtx) -> Result<(), Violation> {
     let o = w.cfg.oracles.clone();
     let writes: Vec<WriteRec> = std::mem::take(&mut w.disk.borrow_mut().writes);
@@ -625,6 +649,10 @@ pub fn post_step(w: &mut World, s: &mut Session, ctx: &PostCtx) -> Result<(), Vi
         if o.dirty_bit && o.fault_resilient {
             dirty_check(w, "after call (storage errors earlier in the run)")?;
         }
+        if o.free_count && o.fault_resilient {
+            // the count is compared with the table itself: no model needed
+            stats_vs_table(w, s)?;
+        }
         return Ok(());
     }
     if o.fsck {
@@ -665,23 +693,8 @@ pub fn post_step(w: &mut World, s: &mut Session, ctx: &PostCtx) -> Result<(), Vi
             }
         }
     }
-    // on multi-hundred-million-cluster volumes a recount (count unknown after a dirty mount) is legitimate but costs
-    // two device calls per cluster: skip the per-step query there and only compare when the count is maintained
-    if o.free_count && (w.count_known || w.geo.n_clusters <= 2_000_000) {
-        let saved_mode = w.disk.borrow().log_mode;
-        w.disk.borrow_mut().log_mode = if saved_mode == crate::disk::LogMode::Off { saved_mode } else { crate::disk::LogMode::Meta };
-        w.disk.borrow_mut().calls.clear();
-        let r = guarded(|| s.fs.stats());
-        w.disk.borrow_mut().calls.clear();
-        w.disk.borrow_mut().log_mode = saved_mode;
-        w.disk.borrow_mut().writes.clear();
-        match r {
-            Guarded::Done(Ok(st)) => check_stats(w, &st)?,
-            Guarded::Done(Err(e)) => return Err(viol("C05", "stats-failed", format!("{:?}", e), w.step_no)),
-            Guarded::Panic(m) => return Err(viol("C05", "panic", format!("stats(): {}", m), w.step_no)),
-            Guarded::Hang => return Err(viol("C05", "hang", "stats()".into(), w.step_no)),
-        }
-        w.count_known = true;
+    if o.free_count {
+        stats_vs_table(w, s)?;
     }
     if o.free_count && ctx.out.res.is_ok() {
         // C05: removing an object gives back exactly the clusters it owned (its chain as decoded before the call)
@@ -997,7 +1010,24 @@ pub fn after_session(w: &mut World, how: u8, pre_end: &Store) -> Result<(), Viol
             return Err(viol("C12", "abandoned-image-not-dirty", format!("status byte {:#04x}", st), w.step_no));
         }
     }
+    if w.faulted && !(o.free_count && o.fault_resilient && !w.unmount_failed && !w.stop) {
+        return Ok(());
+    }
     if w.faulted {
+        // after storage errors: what a clean unmount leaves in the FS-info sector is either "unknown" or the truth
+        // (or, if the count was never usable in the session, what was found there)
+        if g.fat_bits == 32 && how < 2 {
+            let fo = u64::from(g.fsinfo_sector) * u64::from(g.bps);
+            let (cnt, st) = {
+                let d = w.disk.borrow();
+                (d.store.u32_at(fo + 488), d.store.u8_at(g.status_off))
+            };
+            let was = pre_end.u32_at(fo + 488);
+            let p = w.parsed()?;
+            if st & 1 == 0 && cnt != 0xFFFF_FFFF && cnt != p.free && !(cnt == was && !w.count_known) {
+                return Err(viol("C05", "fsinfo-free-count-wrong", format!("after storage errors earlier in the session and a successful unmount: FS-info says {} free, raw FAT has {}", cnt, p.free), w.step_no));
+            }
+        }
         return Ok(());
     }
     if o.free_count && g.fat_bits == 32 && how < 2 {
